@@ -415,6 +415,10 @@ def check(prop, tier):
         coverage["evaluations"], coverage["distinct_nontrivial"], coverage["runs_per_hour"], json.dumps(coverage["fault_kinds"], sort_keys=True)), flush=True)
     if not selftest.get("ok"):
         trouble("determinism self-test failed: %s" % json.dumps(selftest))
+    anomalies = int((stats.get("probes") or {}).get("sequential_anomaly_not_reproduced_in_fresh_process", 0))
+    if anomalies and not new_viol:
+        trouble("%d sequential anomalies (a call returned something else than when run alone) were observed inside worker processes "
+                "but none reproduced from its own workload in a fresh process; the property cannot be claimed to have held" % anomalies)
     if unreproduced:
         for k, path, rc, out in unreproduced:
             print("TROUBLE: violation %s did not reproduce on replay (exit %s); file kept at %s\n%s" % (k, rc, path, out))
